@@ -912,6 +912,34 @@ def _passthrough_set(ctx):
     ctx.require(watcher is not None and init is not None,
                 'firewall._watcher / _init_rules', rule='C16.1')
     graph = ctx.cfg(watcher)
+    # the reference count, whatever the local is called: a mapping of the
+    # watcher (bound to a dict / Counter display) whose entries are
+    # incremented by it or by the handlers nested in it
+    counters = set()
+    for sub in K.walk_no_nested(watcher.node):
+        if isinstance(sub, ast.Assign) and len(sub.targets) == 1 and \
+                isinstance(sub.targets[0], ast.Name) and (
+                    isinstance(sub.value, ast.Dict) or (
+                        isinstance(sub.value, ast.Call) and
+                        K.callee_text(sub.value).split('.')[-1] in (
+                            'dict', 'Counter', 'defaultdict'))):
+            counters.add(sub.targets[0].id)
+    def incremented(name):
+        for st in ast.walk(watcher.node):
+            if isinstance(st, ast.AugAssign) and isinstance(
+                    st.op, ast.Add) and isinstance(
+                        st.target, ast.Subscript) and \
+                    N.txt(st.target.value) == name:
+                return True
+            if isinstance(st, ast.Assign) and isinstance(
+                    st.targets[0], ast.Subscript) and \
+                    N.txt(st.targets[0].value) == name and \
+                    isinstance(st.value, ast.BinOp) and \
+                    isinstance(st.value.op, ast.Add):
+                return True
+        return False
+    counters = set(c for c in counters if incremented(c)) or \
+        {'passthrough'}
     counts = [n for n in graph.nodes if n.kind == 'stmt' and (
         (isinstance(n.ast, ast.Assign) and isinstance(
             n.ast.targets[0], ast.Subscript) and
@@ -920,7 +948,7 @@ def _passthrough_set(ctx):
         (isinstance(n.ast, ast.AugAssign) and isinstance(
             n.ast.op, ast.Add) and isinstance(n.ast.target, ast.Subscript)))
         and N.txt((n.ast.targets[0] if isinstance(n.ast, ast.Assign)
-                   else n.ast.target).value) == 'passthrough']
+                   else n.ast.target).value) in counters]
     ctx.require(counts, 'priming of the passthrough reference count in '
                 '_watcher', rule='C16.1', func=watcher)
 
